@@ -84,109 +84,52 @@ Example C02_refused_nonvacuous :
 Proof. vm_compute. split; reflexivity. Qed.
 
 (* ------------------------------------------------------------------------------------------------
-   C02_ctx_restore, the property as stated (both context managers, body empty, list of individual types):
-
-       Theorem C02_ctx_restore : forall ops l, let s := run sys_init ops in
-         sub_all (cl s) = false -> mem ALL_MESSAGE_TYPES l = false ->
-         (exists s_in s', subscription_context s l = (CtxOk s', Some s_in) /\ same_client (cl s) (cl s')) /\
-         (exists s_in s', paused_subscription_context s l = (CtxOk s', Some s_in) /\ same_client (cl s) (cl s')).
-
-   It is FALSE of the current code, for two recorded reasons (three witnesses below):
-     ctx:skip-after-removed   `for mt in msg_list: ... msg_list.remove(mt)` never examines the entry that
-                              follows a removed one (adjacent already-subscribed entries, duplicates)
-     ctx:paused-on-entry      subscription_context([t]) with t paused on entry leaves t neither subscribed
-                              nor paused
+   C02_ctx_restore / C02_pause_ctx_restore, the property as stated, in full: from EVERY reachable state that is
+   not subscribed-to-all and for EVERY list of individual types (any length, duplicates, any overlap with the
+   subscribed and the paused set, in any position), entering and leaving the context (empty body) restores
+   exactly the subscribed and paused sets - and what the manager delivers.  Inside the body every listed
+   type is subscribed and delivered (resp. not delivered).
+   History: on the snapshot tree this was false - the filtering loop removed entries from the list it was
+   iterating and skipped the entry after each removed one (fixed by 651ddd8), and subscription_context([t])
+   with t paused on entry left t neither subscribed nor paused (fixed by aa63f93); `fixed:` lines ctx:* in
+   known_findings.d/client.txt.  The context managers are hand-modelled (Model/ClientSubs.v, Lib/PyList.v)
+   and tied to the code by the correspondence on every run.
    ------------------------------------------------------------------------------------------------ *)
-Theorem C02_ctx_restore_refuted_skip : exists ops l, let s := run sys_init ops in
-  sub_all (cl s) = false /\ mem ALL_MESSAGE_TYPES l = false /\ nodupb l = true /\
-  forall s_in s', subscription_context s l = (CtxOk s', Some s_in) -> ~ same_client (cl s) (cl s').
-Proof.
-  exists [OSub [1; 2]], [1; 2]. cbn zeta. repeat split. intros s_in s' E (H & _).
-  vm_compute in E. inversion E; subst. specialize (H 2). vm_compute in H. discriminate.
-Qed.
-
-Theorem C02_ctx_restore_refuted_paused : exists ops l, let s := run sys_init ops in
-  sub_all (cl s) = false /\ mem ALL_MESSAGE_TYPES l = false /\
-  forall s_in s', subscription_context s l = (CtxOk s', Some s_in) -> ~ same_client (cl s) (cl s').
-Proof.
-  exists [OSub [1]; OPause [3]], [3]. cbn zeta. repeat split. intros s_in s' E (_ & H & _).
-  vm_compute in E. inversion E; subst. specialize (H 3). vm_compute in H. discriminate.
-Qed.
-
-Theorem C02_pause_ctx_restore_refuted_skip : exists ops l, let s := run sys_init ops in
-  sub_all (cl s) = false /\ mem ALL_MESSAGE_TYPES l = false /\ nodupb l = true /\
-  forall s_in s', paused_subscription_context s l = (CtxOk s', Some s_in) -> ~ same_client (cl s) (cl s').
-Proof.
-  exists [OSub [1]], [2; 3]. cbn zeta. repeat split. intros s_in s' E (H & _).
-  vm_compute in E. inversion E; subst. specialize (H 3). vm_compute in H. discriminate.
-Qed.
-
-(* Exact characterisation: from every reachable state, exit restores the entry state (client sets AND what
-   the manager delivers) if and only if the decidable side condition holds - sub_ctx_ok: every entry that
-   survived the filtering loop is neither subscribed nor paused on entry; pause_ctx_ok: every survivor is
-   subscribed on entry.  Inside the body every listed type is subscribed (resp. not delivered). *)
-Theorem C02_ctx_restore_partial : forall ops l, let s := run sys_init ops in
+Theorem C02_ctx_restore : forall ops l, let s := run sys_init ops in
   sub_all (cl s) = false -> mem ALL_MESSAGE_TYPES l = false ->
-  sub_ctx_ok (cl s) l = true ->
   exists s_in s', subscription_context s l = (CtxOk s', Some s_in) /\
     same_client (cl s) (cl s') /\ (forall t, delivered (mg s') t = delivered (mg s) t) /\
     (forall t, mem t l = true -> reported (cl s_in) t = true /\ delivered (mg s_in) t = true).
 Proof. intros ops l s. exact (sub_ctx_restore s l (run_Inv ops sys_init Inv_init)). Qed.
 
-Theorem C02_pause_ctx_restore_partial : forall ops l, let s := run sys_init ops in
+Theorem C02_pause_ctx_restore : forall ops l, let s := run sys_init ops in
   sub_all (cl s) = false -> mem ALL_MESSAGE_TYPES l = false ->
-  pause_ctx_ok (cl s) l = true ->
   exists s_in s', paused_subscription_context s l = (CtxOk s', Some s_in) /\
     same_client (cl s) (cl s') /\ (forall t, delivered (mg s') t = delivered (mg s) t) /\
     (forall t, mem t l = true -> reported (cl s_in) t = false /\ delivered (mg s_in) t = false).
 Proof. intros ops l s. exact (pause_ctx_restore s l (run_Inv ops sys_init Inv_init)). Qed.
 
-(* the side conditions exclude exactly the failing class *)
-Theorem C02_ctx_restore_exact : forall ops l, let s := run sys_init ops in
-  sub_all (cl s) = false -> mem ALL_MESSAGE_TYPES l = false ->
-  (sub_ctx_ok (cl s) l = false ->
-     exists s_in s', subscription_context s l = (CtxOk s', Some s_in) /\ ~ same_client (cl s) (cl s')) /\
-  (pause_ctx_ok (cl s) l = false ->
-     exists s_in s', paused_subscription_context s l = (CtxOk s', Some s_in) /\ ~ same_client (cl s) (cl s')).
-Proof.
-  intros ops l s A HA. pose proof (run_Inv ops sys_init Inv_init) as I. split.
-  - exact (sub_ctx_not_restored s l I A HA).
-  - exact (pause_ctx_not_restored s l I A HA).
-Qed.
-
-(* a purely syntactic sufficient condition on the argument list: no duplicates, no two NEIGHBOURS that are
-   both already subscribed (resp. both not subscribed), and - for subscription_context - nothing paused *)
-Theorem C02_ctx_side_condition_syntactic : forall c l,
-  nodupb l = true ->
-  (no_adjacent (fun t => mem t (subscribed c)) l = true ->
-   forallb (fun t => negb (mem t (paused c))) l = true -> sub_ctx_ok c l = true) /\
-  (no_adjacent (fun t => negb (mem t (subscribed c))) l = true -> pause_ctx_ok c l = true).
-Proof.
-  intros c l H. split.
-  - exact (sub_ctx_ok_syntactic c l H).
-  - exact (pause_ctx_ok_syntactic c l H).
-Qed.
-
 (* in the subscribed-to-all state both context managers are refused on entry and nothing changes *)
 Theorem C02_ctx_refused : forall s l, sub_all (cl s) = true -> mem ALL_MESSAGE_TYPES l = false ->
   subscription_context s l = (CtxEnterRaised EInvalidSubscription s, None) /\
   paused_subscription_context s l = (CtxEnterRaised EInvalidSubscription s, None).
-Proof.
-  intros s l A HA. split.
-  - destruct (iter_remove_total (fun mt => mem mt (to_set (subscribed (cl s)))) l) as [l' L].
-    exact (sub_ctx_refused s l l' A HA L).
-  - destruct (iter_remove_total (fun mt => negb (mem mt (to_set (subscribed (cl s))))) l) as [l' L].
-    exact (pause_ctx_refused s l l' A HA L).
-Qed.
+Proof. intros s l A HA. split; [exact (sub_ctx_refused s l A HA)|exact (pause_ctx_refused s l A HA)]. Qed.
 
-(* the loop model never runs out of fuel *)
-Theorem C02_ctx_loop_total : forall p l, exists l', iter_remove p l = Some l'.
-Proof. exact iter_remove_total. Qed.
+(* the filtering loop (remove from msg_list while iterating a copy of it) is the filter *)
+Theorem C02_ctx_loop_is_filter : forall p l, copy_remove p l = filter (fun x => negb (p x)) l.
+Proof. exact copy_remove_filter. Qed.
 
-(* non-vacuity: overlapping lists for which the side conditions hold, from a non-trivial state *)
-Example C02_ctx_partial_nonvacuous :
-  let ops := [OSub [1; 2; 3]; OPause [3; 4]] in let s := run sys_init ops in
+(* non-vacuity: the formerly failing inputs (adjacent already-subscribed entries, a duplicate, an entry paused
+   on entry, adjacent not-subscribed entries) now restore the entry state *)
+Example C02_ctx_nonvacuous :
+  let s := run sys_init [OSub [1; 2; 3]; OPause [3; 4]] in
   sub_all (cl s) = false /\
-  sub_ctx_ok (cl s) [1; 5; 2; 6] = true /\ pause_ctx_ok (cl s) [1; 5; 2] = true /\
-  sub_ctx_ok (cl s) [1; 2; 6] = false /\ sub_ctx_ok (cl s) [3] = false /\ pause_ctx_ok (cl s) [5; 6] = false.
-Proof. vm_compute. repeat split. Qed.
+  (exists s_in s', subscription_context s [1; 2; 6; 6; 4] = (CtxOk s', Some s_in) /\
+     seteq (subscribed (cl s')) [1; 2] = true /\ seteq (paused (cl s')) [3; 4] = true /\
+     seteq (subscribed (cl s_in)) [1; 2; 6; 4] = true /\ seteq (paused (cl s_in)) [3] = true) /\
+  (exists s_in s', paused_subscription_context s [5; 6; 1; 1; 3] = (CtxOk s', Some s_in) /\
+     seteq (subscribed (cl s')) [1; 2] = true /\ seteq (paused (cl s')) [3; 4] = true /\
+     seteq (subscribed (cl s_in)) [2] = true /\ seteq (paused (cl s_in)) [1; 3; 4] = true).
+Proof.
+  split; [reflexivity|]. split; do 2 eexists; (split; [vm_compute; reflexivity|]); repeat split; vm_compute; reflexivity.
+Qed.
